@@ -12,7 +12,7 @@ import Mathlib.Order.Lattice
 import Mathlib.Tactic.Linarith
 import Mathlib.Tactic.Abel
 
-namespace ICG
+namespace ICG.SpecSA
 
 /-! ### bit facts used below -/
 
@@ -53,14 +53,14 @@ theorem mem_knownSupers {n : Nat} {known : Nat → Bool} {c T : Nat} :
 
 /-! ### A. `MinInfo` excludes the junk branches -/
 
-theorem MinInfo.ne_zero {n : Nat} {known : Nat → Bool} (hmin : MinInfo n known) {c : Nat}
+theorem minInfo_ne_zero {n : Nat} {known : Nat → Bool} (hmin : MinInfo n known) {c : Nat}
     (hk : known c = false) : c ≠ 0 := by
   rintro rfl; rw [hmin.1] at hk; cases hk
 
 /-- under `MinInfo` an unknown coalition has a proper non-empty sub-coalition (a singleton) -/
 theorem properSubs_ne_nil {n : Nat} {known : Nat → Bool} (hmin : MinInfo n known) {c : Nat}
     (hc : c < 2 ^ n) (hk : known c = false) : properSubs c ≠ [] := by
-  obtain ⟨i, hi⟩ := Nat.exists_testBit_of_ne_zero (hmin.ne_zero hk)
+  obtain ⟨i, hi⟩ := Nat.exists_testBit_of_ne_zero (minInfo_ne_zero hmin hk)
   have hin : i < n := lt_of_testBit_of_lt_two_pow hc hi
   have hmem : 2 ^ i ∈ properSubs c := by
     refine mem_properSubs.mpr ⟨two_pow_and_of_testBit hi, Nat.pos_iff_ne_zero.mp (Nat.two_pow_pos i), ?_⟩
@@ -310,4 +310,4 @@ omit [IsOrderedAddMonoid α] in
 theorem completion_self {n : Nat} (known : Nat → Bool) {v : Nat → α} (hv : SA n v) :
     Completion n known v v := ⟨hv, fun _ _ _ => rfl⟩
 
-end ICG
+end ICG.SpecSA
